@@ -19,7 +19,8 @@ for pid in sorted(os.listdir(os.path.join(ROOT, "props"))):
         for x in json.load(open(f)):
             x.setdefault("status", "open")
             assert x["property"] == pid, (pid, x)
-            out.append(x)
+            if x["status"] == "open":
+                out.append(x)
 kf["findings"] = out
 atomic_dump(kf, os.path.join(ROOT, "known_findings.json"))
 print("open findings:", len(out))
